@@ -45,7 +45,9 @@ func c15Jobs(tier string, seed int64) []string {
 				continue
 			}
 			add("sep:0:" + strconv.Itoa(pi) + ":" + strconv.Itoa(pos))
-			if tier == "thorough" || pos%4 == 0 {
+			// comfort mode: programs 1 and 2 contain calls, whose one-blank canonical layout "f (" is a
+			// product there - they are laid out in comfort mode by the juxt job instead
+			if (tier == "thorough" || pos%4 == 0) && pi != 1 && pi != 2 {
 				add("sep:1:" + strconv.Itoa(pi) + ":" + strconv.Itoa(pos))
 			}
 		}
